@@ -86,6 +86,7 @@ def run_tlc(module, cfg, label, workers=1, timeout=900, env=None, extra=None, xm
         cmd += list(jvm)
     if deque:
         cmd.append('-Dtlc2.tool.queue.IStateQueue=StateDeque')
+    cmd.append('-Djava.io.tmpdir=' + meta)        # TLC's scratch directories stay inside the build tree, not in /tmp
     cmd += ['-cp', JAR, 'tlc2.TLC', '-workers', str(workers), '-metadir', meta, '-noGenerateSpecTE',
             '-config', cfg]
     if coverage:
